@@ -131,7 +131,8 @@ type hist struct {
 
 	pending []moveRec // moves of the open pass
 	// oracle bookkeeping of the current run (since BEGIN)
-	copyOnly       bool // no Ignore/Destroy decision and no user operation since BEGIN
+	copyOnly       bool         // no user operation since BEGIN (the run is undisturbed)
+	ignoredBlocks  map[int]bool // ids of the blocks with an ignored move in the current run
 	passesWithMove int
 	expect         defrag.DefragmentationStats // moved counters the run statistics must show
 	expectValid    bool
@@ -143,7 +144,7 @@ type hist struct {
 }
 
 func newHist(c cfg, out *bufio.Writer, st *stats) *hist {
-	return &hist{c: c, w: newWorld(c.sizes, c.sentinel), out: out, st: st}
+	return &hist{c: c, w: newWorld(c.sizes, c.sentinel), out: out, st: st, ignoredBlocks: map[int]bool{}}
 }
 
 func (h *hist) fail(prop, sig, detail string) {
@@ -432,6 +433,7 @@ func (h *hist) exec(f []string) bool {
 		w.pass = nil
 		w.run = defrag.DefragmentationStats{}
 		h.copyOnly, h.passesWithMove = true, 0
+		h.ignoredBlocks = map[int]bool{}
 		h.expect, h.expectValid = defrag.DefragmentationStats{}, true
 		h.result(res)
 		if w.begun && !fresh {
